@@ -220,6 +220,9 @@ def run(res, replay=None, visit_only=False):
         if jobs:
             m, v, buf, script = jobs[0][:4]
             res.sample({"schema": s.package, "message": m.name, "script": script[:6]})
+    if visit_only:
+        import c19enum
+        found |= c19enum.run_enum_part(res, model)
     res.extra["sequence_outcomes_model"] = outcome_dist
     if not ok_proof:
         proof_failure_violation(res, found)
